@@ -50,11 +50,12 @@ type runCase struct {
 	Key     string `json:"key"`    // PAN-OS API key / NSX x-xsrf-token
 	Cookie  string `json:"cookie"` // NSX session cookie
 	FaultAt int    `json:"fault_at"`
-	Fault   string `json:"fault"`    // HTTP: eof | timeout | status | statuskey | trunc | invalid | inactive ; SSH: close | silence | wrongpass
-	User    string `json:"user"`     // "" = admin
-	KeyKind string `json:"key_kind"` // "" = base64-like key; else the odd character class the key contains (scan only)
-	Variant int    `json:"variant"`  // layout of the keygen response / netspoc config with or without changes
-	Cred    string `json:"cred"`     // "" normal credentials file; "4fields" | "nomatch" | "badpattern": malformed
+	Fault   string `json:"fault"`              // HTTP: eof | timeout | status | statuskey | trunc | invalid | inactive ; SSH: close | silence | wrongpass
+	User    string `json:"user"`               // "" = admin
+	KeyForm int    `json:"key_form,omitempty"` // PAN-OS: 1+index into keyElementForms — how the keygen answer spells the key element (scan only)
+	KeyKind string `json:"key_kind"`           // "" = base64-like key; else the odd character class the key contains (scan only)
+	Variant int    `json:"variant"`            // layout of the keygen response / netspoc config with or without changes
+	Cred    string `json:"cred"`               // "" normal credentials file; "4fields" | "nomatch" | "badpattern": malformed
 }
 
 func (c runCase) user() string {
@@ -600,6 +601,9 @@ func execRun(tmp string, c *runCase, no int, scale int) *runOutcome {
 				var kb bytes.Buffer
 				xml.EscapeText(&kb, []byte(c.Key)) // the device sends well-formed XML whatever the key contains
 				rep.A = pre + "<key>" + kb.String() + "</key>" + post
+				if c.KeyForm > 0 {
+					rep.A = pre + keyElementForms(c.Key)[c.KeyForm-1] + post
+				}
 			case strings.Contains(q.Get("cmd"), "high-availability"):
 				rep.A = panHA
 			case q.Get("type") == "config" && q.Get("action") == "get":
@@ -1007,8 +1011,12 @@ func (e *c17Env) scanRun(c *runCase, o *runOutcome) {
 				if strings.HasSuffix(v.form, ":part") {
 					match = "part"
 				}
-				e.res.Fail(map[string]any{"pred": v.pred, "sink": sink, "dev": c.Dev, "secret": kind, "form": strings.TrimSuffix(v.form, ":part"),
-					"match": match, "phase": v.phase, "line": v.line},
+				sig := map[string]any{"pred": v.pred, "sink": sink, "dev": c.Dev, "secret": kind, "form": strings.TrimSuffix(v.form, ":part"),
+					"match": match, "phase": v.phase, "line": v.line}
+				if c.KeyForm > 0 {
+					sig["key_element"] = keyElementForm(keyElementForms(c.Key)[c.KeyForm-1], c.Key)
+				}
+				e.res.Fail(sig,
 					fmt.Sprintf("%s %s: %s found (%s, %s) in %s [fault %s at %d]", c.Dev, c.Cmd, kind, v.form, match, rel, c.Fault, c.FaultAt),
 					map[string]any{"run": c})
 				e.res.Count("leak:" + v.pred + ":" + v.phase + ":" + sink)
@@ -1261,6 +1269,30 @@ func (e *c17Env) compareSSH(c *runCase, o *runOutcome) {
 	}
 	o.noEcho = len(m["noecho"]) == 1 && m["noecho"][0] == "1"
 	e.res.Count(fmt.Sprintf("ssh-device:noEchoAtPasswordPrompt=%v", o.noEcho))
+	// the whole session — login, configuration, every command of the change script with the device's
+	// echo — went through the chunk-level model (sessionProg = loadProg.andThen changeProg)
+	whole := len(m["whole"]) == 1 && m["whole"][0] == "1"
+	e.res.Count(fmt.Sprintf("ssh-session:whole-through-echo-model=%v,applies=%v", whole, applies))
+	// hypothesis of ssh_session_with_changes_independent, checked per run: neither the commands the
+	// device received (other than at its password prompts) nor anything it wrote contains the password
+	scriptClean, devClean := true, true
+	for _, line := range strings.Split(o.SimTl, "\n") {
+		if strings.HasPrefix(line, "R ") && line[2:] != "PWOK" {
+			if _, found := findSecret(unhx(line[2:]), c.Pass, c.user()); found {
+				scriptClean = false
+			}
+		}
+	}
+	if _, found := findSecret(o.SimOut, c.Pass, c.user()); found {
+		devClean = false
+	}
+	if !scriptClean {
+		// neither the Netspoc code nor the simulated device holds the password, so the back end itself
+		// put it into a command: it is written to the device's command history and echoed into the log
+		e.res.Fail(map[string]any{"pred": "password_sent_as_command", "dev": c.Dev}, "the device received the password outside a password prompt (as part of a command)",
+			map[string]any{"run": c})
+	}
+	e.res.Count(fmt.Sprintf("ssh-hypothesis:commands-free-of-password=%v,device-output-free-of-password=%v", scriptClean, devClean))
 	wantChange := strings.Join(m["change"], "")
 	if approve && finished && !applies {
 		wantChange = "No changes applied\n"
@@ -1435,7 +1467,7 @@ func (e *c17Env) judge(c *runCase, o *runOutcome) (leaks, tie *Result, reached b
 				e.compareSSH(c, o) // also tells whether the device kept to `noEchoAtPasswordPrompt`
 			}
 			switch {
-			case c.Dev == "PAN-OS" && c.Cred == "" && c.User == "" && c.KeyKind == "":
+			case c.Dev == "PAN-OS" && c.Cred == "" && c.User == "" && c.KeyKind == "" && c.KeyForm == 0:
 				e.comparePanos(c, o)
 			case c.Dev == "NSX" && c.Cred == "":
 				e.compareNSX(c, o)
@@ -1619,6 +1651,13 @@ func (e *c17Env) wholeRuns() {
 			run(&runCase{Dev: "PAN-OS", Cmd: cmd, FaultAt: -1, Variant: i, KeyKind: kk})
 			run(&runCase{Dev: "PAN-OS", Cmd: cmd, FaultAt: 1 + (i+ci)%4, Fault: Pick(rng, []string{"eof", "status", "trunc"}), Variant: i, KeyKind: kk})
 		}
+	}
+	// the keygen answer spells the key element in every form encoding/xml accepts
+	for i := range keyElementForms("0123456789") {
+		if !thorough && i%3 != int(rng.Intn(3)) {
+			continue
+		}
+		run(&runCase{Dev: "PAN-OS", Cmd: Pick(rng, []string{"do-approve approve", "drc", "do-approve compare"}), FaultAt: -1, Variant: i, KeyForm: i + 1})
 	}
 	// a user name with a control character: the commit URL is rejected by net/url ("parse" error)
 	run(&runCase{Dev: "PAN-OS", Cmd: "do-approve approve", FaultAt: -1, User: "ad\x01min"})
